@@ -212,7 +212,8 @@ func (c *c18Sess) do(op c18Op) *ev.Failure {
 		case "SRV-EVENT", "SRV-OTHER":
 			var msg mocrelay.ServerMsg
 			if op.Kind == "SRV-EVENT" {
-				msg = mocrelay.NewServerEventMsg("s", eventFor(op.ID))
+				// the same event may answer different subscriptions of the connection
+				msg = mocrelay.NewServerEventMsg([]string{"s", "s", "s2", "s3"}[(step+len(op.ID))%4], eventFor(op.ID))
 			} else {
 				switch op.ID {
 				case "a":
